@@ -207,8 +207,8 @@ theorem rdHeaderPart_raw (fl : Flavor) (m : UMesh) (hw : WellFormed m = true) (r
   rfl
 
 /-- **the parallel reader on what a writer lays out**, for every flavour, rank count ≥ 1, chunk size ≥ 1 -/
-theorem partRead_encodeRaw (fl : Flavor) (m : UMesh) (hw : WellFormed m = true) (np : Nat) (hnp : 1 ≤ np) (chunk : Nat)
-    (hc1 : 1 ≤ chunk) (hc2 : 72 * chunk ≤ 2 ^ 30) :
+theorem partRead_encodeRaw (fl : Flavor) (m : UMesh) (hw : WellFormed m = true) (np : Nat) (hnp : 1 ≤ np)
+    (hnp2 : np < 2 ^ 31) (chunk : Nat) (hc1 : 1 ≤ chunk) (hc2 : 72 * chunk ≤ 2 ^ 30) :
     partRead fl np (some chunk) (encodeRaw fl m) =
       .ok { nnode := m.nodes.length, np := np, nodes := m.nodes,
             cells := Kind.all.map fun k => dedupCells k (m.get k) [] } := by
@@ -223,6 +223,10 @@ theorem partRead_encodeRaw (fl : Flavor) (m : UMesh) (hw : WellFormed m = true) 
   rw [← hraw] at hh
   rw [hh]
   simp only [hdrOf_getD0, Int.toNat_natCast]
+  have hsmall : ¬ ((m.nodes.length : Int) + (np : Int) ≥ 2 ^ 63 ∨ (m.nodes.length : Int) ≤ -(2 ^ 63 : Int)) := by
+    have := ((wf_iff m).1 hw).1
+    omega
+  rw [if_neg hsmall]
   have hv : ∀ rest, rdVerts fl m.nodes.length (secNodes fl m ++ rest) = .ok (m.nodes, rest) :=
     fun rest => rdVerts_flatMap fl m.nodes rest
   rw [hv]
